@@ -329,9 +329,27 @@ def _counter_incs(body):
             if src.kind == "field" and src.a == "0" and src.kids[0].kind == "bin" and src.kids[0].a in ("AddWithOverflow", "Add"):
                 binn = src.kids[0]
                 if binn.kids[1].kind == "const" and binn.kids[1].a.as_int() == 1:
-                    name = _place_name(body, lhs)
-                    out.append((bi, si, name))
+                    # a self-increment: the left operand of the addition is the place written to
+                    src_pl = _bin_left_place(body, st)
+                    if src_pl is not None and body.canon_place(src_pl) == body.canon_place(lhs):
+                        name = _place_name(body, lhs)
+                        out.append((bi, si, name))
     return out
+
+
+def _bin_left_place(body, st):
+    """for `X = move (_t.0)` with `_t = AddWithOverflow(copy P, 1)`: P"""
+    rv = st["rv"]
+    if rv["k"] != "use":
+        return None
+    pl = rv["op"].get("move") or rv["op"].get("copy")
+    if not pl:
+        return None
+    d = body.single_def(pl["l"])
+    if not d or d[2] != "assign" or d[3]["k"] != "bin":
+        return None
+    a = d[3]["a"]
+    return a.get("copy") or a.get("move")
 
 
 def _place_name(body, pl):
